@@ -567,6 +567,32 @@ func runC11(c *Ctx) {
 				if p.End != EndReturn {
 					continue
 				}
+				if len(p.Rets) == 1 && (p.Rets[0].Op == "zero" || p.Rets[0].Op == "struct" && isZeroTerm(p.Rets[0].Args[0]) && isZeroTerm(p.Rets[0].Args[1])) {
+					// the zero Bimap shares nothing and is an empty, usable map (lazy-init rule): it is a clone of the
+					// receiver exactly when both of the receiver's maps are known to be empty on this path
+					empty := map[*types.Var]bool{}
+					for _, cd := range p.Conds {
+						pl, kind, isInt := cd.Rel().IntNorm()
+						if !isInt {
+							continue
+						}
+						for _, at := range pl.Atoms {
+							if at.Op != "builtin" || at.Sym != "len" || len(at.Args) != 1 {
+								continue
+							}
+							lenF := ToPoly(at)
+							for _, f := range []*types.Var{fF, fR} {
+								if isFieldLoad(at.Args[0], f, recv) && (kind == "=" && pl.Equal(canonSign(lenF)) || kind == ">" && pl.Equal(polyConst(1).Add(lenF, -1))) {
+									empty[f] = true
+								}
+							}
+						}
+					}
+					if !empty[fF] || !empty[fR] {
+						ok, why = false, "a path returns an empty Bimap although the receiver's maps are not both known to be empty ("+p.CondString()+")"
+					}
+					continue
+				}
 				if len(p.Rets) != 1 || p.Rets[0].Op != "struct" {
 					ok, why = false, "a path returns something other than a freshly built Bimap ("+p.CondString()+"): the receiver's maps are shared"
 					continue
